@@ -80,8 +80,12 @@ ASSUMPTIONS = [
     '"Shuts down once nothing at or before it remains to run" is decided at '
     'quiescence of the fair drain only, and only the clear case is reported: '
     'every pooled task is a runahead-limited waiting task beyond the stop '
-    'point, the incarnation has submitted a job (no restart-timeout wait) '
-    'and no stop was requested.',
+    'point, the incarnation has submitted a job, the scheduler is not in '
+    'its restart-timeout wait (observed flag: a restart that finds nothing '
+    'left to run waits PT2M for the user; the engine runs commands between '
+    'main-loop iterations, so a triggered job can come and go without the '
+    'scheduler sampling the change that ends the wait, and the virtual clock '
+    'does not run the timeout down) and no stop was requested.',
     '"Forgotten once reached" is read on stop points that the scheduler '
     'stores (stop command, --stopcp): after a shutdown with reason AUTOMATIC '
     'the value is gone.  A configured [scheduling]stop after cycle point is '
@@ -656,7 +660,12 @@ class StopModel:
                        f'still running at quiescence (iteration '
                        f'{sim.iteration})')
             eff = self.eff()
-            if (self.sure and self.explicit is None
+            if getattr(sim.schd, 'is_restart_timeout_wait', False):
+                # the restarted scheduler is (still) giving the user its
+                # restart-timeout grace period; the virtual clock does not
+                # run it down
+                self.classes.add('quiescent-in-restart-timeout-wait')
+            elif (self.sure and self.explicit is None
                     and self.launch_inc.get(sim.incarnation)
                     and not sim.schd.is_paused
                     and all(self.pt(t['cycle']) > eff
